@@ -46,6 +46,9 @@ func checkC20(c *Ctx) {
 	if sites, _ := c.gzipAllMembers("ALL-MEMBERS", "every input element has a non-zero chance of being selected"); sites > 0 {
 		c.Trivial("ALL-MEMBERS", "scan", 0, fmt.Sprintf("%d gzip readers, none with Multistream switched off", sites))
 	}
+	c.Decides("APPEND-ALWAYS (shared with C13, go/cfg): Nexus.AddTree appends on every path - every TREE statement of a Nexus file reaches the reservoir of `sample`, whatever its name")
+	c.appendAlways("APPEND-ALWAYS", c.Func("io/nexus", "Nexus", "AddTree"), []string{"trees", "treeNames"}, "every input element has a non-zero chance of being selected")
+	c.Floor("APPEND-ALWAYS", 2)
 	c.Floor("DRAW", 6)
 	n := 0
 	for _, p := range c.All {
